@@ -14,7 +14,7 @@ import json
 import os
 
 PROP = 'C14'
-TARGETS = ['T14']
+TARGETS = ['T14', 'T14p']
 LEAN_MODULES = ['HdVerif.Props.C14']
 MODEL_MODULES = ['HdVerif.Model.SRContentSeq']
 NAMESPACE = 'HdVerif.C14'
